@@ -157,8 +157,18 @@ def r2(F, R):
     R.floor(3)
 
 
+MANDATORY = {
+    ("event::Step", "Passed"): {"passed"},
+    ("event::Step", "Skipped"): {"ignored"},
+    ("event::Step", "Failed"): {"failed", "retried"},
+    ("event::Hook", "Failed"): {"hook_errors"},
+    ("std::result::Result", "Err"): {"parsing_errors"},
+}
+
+
 def r3(F, R):
     root, bodies, ws = W.check_counter_table(F, R, LT, TABLE, COUNTERS)
+    W.check_mandatory(F, R, LT, ws, MANDATORY)
     ctors = test_event_ctors(F)
     calls = ctor_calls(F, bodies, ctors)
     want = {"Started": "Started", "Passed": "Ok", "Skipped": "Ignored", "Failed": "Failed"}
